@@ -114,6 +114,36 @@ fn bumpy_slab(rng: &mut Rng, depth: u8) -> Built {
     Built { ctx, root, desc }
 }
 
+/// the exact signed distance of a box, length(max(d, 0)) + min(max(dx, dy, dz), 0) with d = |p - c| - h: the
+/// gradient of the sqrt is 0 / 0 = NaN on every face
+fn exact_box(rng: &mut Rng) -> Built {
+    let mut ctx = Context::new();
+    let (x, y, z) = (ctx.x(), ctx.y(), ctx.z());
+    let c = [rng.range(-0.15, 0.15), rng.range(-0.15, 0.15), rng.range(-0.15, 0.15)];
+    let h = [rng.range(0.25, 0.5), rng.range(0.25, 0.5), rng.range(0.25, 0.5)];
+    let zero = ctx.constant(0.0);
+    let mut d = vec![];
+    for (k, axis) in [x, y, z].into_iter().enumerate() {
+        let kc = ctx.constant(c[k]);
+        let kh = ctx.constant(h[k]);
+        let t = ctx.sub(axis, kc).unwrap();
+        let a = ctx.abs(t).unwrap();
+        d.push(ctx.sub(a, kh).unwrap());
+    }
+    let mut sum = zero;
+    for dk in &d {
+        let m = ctx.max(*dk, zero).unwrap();
+        let sq = ctx.square(m).unwrap();
+        sum = ctx.add(sum, sq).unwrap();
+    }
+    let outside = ctx.sqrt(sum).unwrap();
+    let m01 = ctx.max(d[0], d[1]).unwrap();
+    let m012 = ctx.max(m01, d[2]).unwrap();
+    let inside = ctx.min(m012, zero).unwrap();
+    let root = ctx.add(outside, inside).unwrap();
+    Built { ctx, root, desc: format!("exact box sdf centre {c:?} half {h:?}") }
+}
+
 fn pool(n: usize) -> ThreadPool {
     ThreadPool::Custom(rayon::ThreadPoolBuilder::new().num_threads(n).build().unwrap())
 }
@@ -406,7 +436,8 @@ fn main() {
     for i in 0..n {
         let depth = if !quick && i % 25 == 24 { 6 } else { 1 + (i % (maxd.min(5))) as u8 };
         let b = match i % 7 {
-            0 | 1 => shapes::random_csg3(&mut rng, 1 + (i / 6) % 4, true),
+            0 => shapes::random_csg3(&mut rng, 1 + (i / 6) % 4, true),
+            1 => if i % 2 == 0 { exact_box(&mut rng) } else { shapes::random_csg3(&mut rng, 1 + (i / 6) % 4, true) },
             2 => cone(0.15 + 0.1 * rng.below(5) as f32 + 0.013, 0.5 + 0.1 * rng.below(4) as f32, -0.37 - 0.1 * rng.below(2) as f32),
             3 => bumpy_slab(&mut rng, depth.max(2)),
             4 => {
